@@ -131,6 +131,23 @@ Definition observe_rstate (maxcap : N) (rs : rstate) : list (list val) :=
    map (fun e => VL [VB (fst (fst e)); val_of_msg_obs (obs_of_pkt maxcap (snd e))]) (rs_ifm rs);
    map (fun e => val_of_msg_obs (obs_of_pkt maxcap (retained_view (snd e)))) (rs_ret rs)].
 
+(* inclusion of multisets of values *)
+Fixpoint mset_subb (a b : list val) : bool :=
+  match a with
+  | [] => true
+  | x :: a' => match remove1 x b with Some b' => mset_subb a' b' | None => false end
+  end.
+
+(* two observations that agree except that the second may hold more in-flight messages (component 3) *)
+Definition only_more_inflight (a b : list (list val)) : bool :=
+  match a, b with
+  | [c1; i1; s1; f1; r1], [c2; i2; s2; f2; r2] =>
+      mset_eqb c1 c2 && mset_eqb i1 i2 && mset_eqb s1 s2 && mset_subb f1 f2 && mset_eqb r1 r2
+  | _, _ => false
+  end.
+
+Definition kf_deferred : bytes := tag "KF_C20_deferred_send_untracked".
+
 Definition backend_of_index (n : N) : option backend :=
   match n with 0 => Some Badger | 1 => Some Pebble | 2 => Some Bolt | 3 => Some Redis | _ => None end.
 
@@ -159,6 +176,7 @@ Definition restart_engine (c : val) : val :=
               if superseded_writes es then verdict 1 tg nontriv [VN 7]
               else if clean_start_leftover astate0 es then
                 (if superseded_delivery es then verdict 3 tg nontriv [VB (tag "KF_C20_takeover_delivery"); VN 6]
+                 else if held_back astate0 [] es then verdict 3 tg nontriv [VB kf_deferred; VN 6]
                  else verdict 1 tg nontriv [VN 6])
               else if negb spec_ok then
                 match kf_name maxcap aws with
@@ -166,12 +184,16 @@ Definition restart_engine (c : val) : val :=
                             else verdict 1 tg nontriv [VN (first_diff 0 o1 o2)]
                 | None => if superseded_delivery es && model_ok
                           then verdict 3 tg nontriv [VB (tag "KF_C20_takeover_delivery"); VN (first_diff 0 o1 o2)]
+                          else if held_back astate0 [] es && model_ok && only_more_inflight o1 o2
+                          then verdict 3 tg nontriv [VB kf_deferred; VN (first_diff 0 o1 o2)]
                           else verdict 1 tg nontriv [VN (first_diff 0 o1 o2)]
                 end
               else if negb model_ok then verdict 2 tg nontriv [VN 1; VN (first_diff 0 (vals_of_rstate rs) snap2)]
               else if negb mem_ok then
                 if superseded_delivery es
                 then verdict 3 tg nontriv [VB (tag "KF_C20_takeover_delivery"); VN (first_diff 0 (observe_astate maxcap (arun aws)) o1)]
+                else if held_back astate0 [] es && only_more_inflight o1 (observe_astate maxcap (arun aws))
+                then verdict 3 tg nontriv [VB kf_deferred; VN 3]
                 else verdict 2 tg nontriv [VN 2; VN (first_diff 0 (observe_astate maxcap (arun aws)) o1)]
               else verdict 0 tg nontriv []
           | _, _ => bad_case
@@ -184,11 +206,16 @@ Definition restart_engine (c : val) : val :=
 (* ENGINE crash Storage.RestartEngine.crash_engine *)
 Definition crash_engine (c : val) : val :=
   match c with
-  | VL [VN bi; VN maxcap; VL evs; VN k; VN ce; VN cw; s2] =>
-      match backend_of_index bi, map_opt parse_event evs, parse_snapshot s2 with
-      | Some b, Some es, Some snap2 =>
-          match observe_snapshot false maxcap snap2 with
-          | Some o2 =>
+  | VL [VN bi; VN maxcap; VL evs; VN k; VN ce; VN cw; s1; s2] =>
+      match backend_of_index bi, map_opt parse_event evs, parse_snapshot s1, parse_snapshot s2 with
+      | Some b, Some es, Some snap1, Some snap2 =>
+          match observe_snapshot true maxcap snap1, observe_snapshot false maxcap snap2 with
+          | Some o1, Some o2 =>
+              (* when every write of the history reached the store (no cut), the broker's memory at the
+                 end of the history must be what the writes describe: whatever the broker holds for a
+                 session without having told the store is lost by any later crash *)
+              let complete := N.of_nat (length (awrites_of es)) <=? k in
+              let mem_ok := negb complete || comps_eqb (observe_astate maxcap (arun (awrites_of es))) o1 in
               let kn := N.to_nat k in
               let aws := firstn kn (awrites_of es) in
               let nontriv := 2 <? k in
@@ -204,6 +231,7 @@ Definition crash_engine (c : val) : val :=
               else if superseded_writes es then verdict 1 tg nontriv [VN 7]
               else if clean_start_leftover astate0 es then
                 (if superseded_delivery es then verdict 3 tg nontriv [VB (tag "KF_C20_takeover_delivery"); VN 6]
+                 else if held_back astate0 [] es then verdict 3 tg nontriv [VB kf_deferred; VN 6]
                  else verdict 1 tg nontriv [VN 6])
               else if negb spec_ok then
                 match kf_name maxcap aws with
@@ -212,12 +240,17 @@ Definition crash_engine (c : val) : val :=
                 | None => verdict 1 tg nontriv [VN (first_diff 0 (observe_astate maxcap (arun aws)) o2)]
                 end
               else if ack_before_write es kn then verdict 1 tg nontriv [VN 8]
+              else if negb mem_ok then
+                (if superseded_delivery es then verdict 3 tg nontriv [VB (tag "KF_C20_takeover_delivery"); VN 5]
+                 else if held_back astate0 [] es && only_more_inflight o1 (observe_astate maxcap (arun (awrites_of es)))
+                 then verdict 3 tg nontriv [VB kf_deferred; VN 5]
+                 else verdict 1 tg nontriv [VN 5; VN (first_diff 0 (observe_astate maxcap (arun (awrites_of es))) o1)])
               else if negb model_ok then verdict 2 tg nontriv [VN 1; VN (first_diff 0 (vals_of_rstate rs) snap2)]
               else if KF_C21_ack_before_forward es kn then verdict 3 tg nontriv [VB (tag "KF_C21_ack_before_forward")]
               else verdict 0 tg nontriv []
-          | None => bad_case
+          | _, _ => bad_case
           end
-      | _, _, _ => bad_case
+      | _, _, _, _ => bad_case
       end
   | _ => bad_case
   end.
